@@ -83,7 +83,7 @@ func VerifH_C18_callback_order_on_real_transport() {
 		order = append(order, "A")
 		sock.Send(types.NewStringBufferString("c"), nil, func(transports.Transport) { order = append(order, "C") })
 		if slow {
-			verif.Settle() // the callback takes its time
+			verif.TakeTime() // the callback takes its time
 		}
 	})
 	sock.Send(types.NewStringBufferString("b"), nil, func(transports.Transport) { order = append(order, "B") })
